@@ -1128,7 +1128,7 @@ static void print_flame_graph(struct uftrace_dump_ops *ops, struct uftrace_graph
 		while (--i >= 0)
 			ptr += snprintf(ptr, len, "%s;", names[i]);
 		ptr[-1] = ' ';
-		snprintf(ptr, len, "%lu", sample);
+		snprintf(ptr, 32, "%lu", sample);
 
 		pr_out("%s\n", buf);
 		free(buf);
